@@ -42,7 +42,7 @@ def belongs(prop, v, run):
     if prop == "C13":
         return cls.startswith("rebuild")
     if prop == "C15":
-        return cls.startswith("asan:") or cls in ("crash", "abort", "ubsan", "assert", "hang")
+        return cls.startswith("asan:") or cls.startswith("valgrind:") or cls in ("crash", "abort", "ubsan", "assert", "hang")
     if prop == "C18":
         return cls in ("counter", "counter-result", "kernel-sharing", "wrapper-args")
     return False
@@ -225,8 +225,10 @@ def run_replay(flavour, scenario, timeout=120):
         crash = {"stage": stage, "what": "exit=%d" % p.returncode}
     return res, crash
 
-def emit_scenario(flavour, prop, tier, seed, sub):
-    p = subprocess.run([binary(flavour), "--emit", "--prop", prop, "--tier", tier, "--seed", str(seed), "--sub", str(sub)], stdout=subprocess.PIPE, stderr=subprocess.DEVNULL, text=True)
+def emit_scenario(flavour, prop, tier, seed, sub, force=None):
+    env = dict(os.environ)
+    if force: env.update(force)
+    p = subprocess.run([binary(flavour), "--emit", "--prop", prop, "--tier", tier, "--seed", str(seed), "--sub", str(sub)], stdout=subprocess.PIPE, stderr=subprocess.DEVNULL, text=True, env=env)
     for line in p.stdout.splitlines():
         if line.startswith("{"):
             return json.loads(line)
@@ -234,6 +236,9 @@ def emit_scenario(flavour, prop, tier, seed, sub):
 
 def shows(prop, flavour, scenario, want):
     """Does the scenario still show the wanted violation (same class and site; for crashes same stage)?"""
+    if flavour == "valgrind":
+        errs = valgrind_replay(scenario)
+        return any(c == want["cls"] and st == want["site"] for (_, _, c, st, _) in errs), None, None
     res, crash = run_replay(flavour, scenario)
     if want["cls"] in ("crash", "hang", "abort"):
         if crash is None: return False, res, crash
@@ -299,7 +304,8 @@ def minimise(prop, flavour, scenario, want, max_runs=300):
                 return ok(c)
             sc[key] = ddmin_list(sc[key], t, budget)
     # tree height, threads, policy simplifications
-    while sc["height"] > 1 and attempt(lambda c: c.__setitem__("height", c["height"] - 1)): pass
+    min_height = 2 if any(h.get("op") == "top" for h in sc.get("history", [])) else 1    # the top-tree algorithm requires height > 1
+    while sc["height"] > min_height and attempt(lambda c: c.__setitem__("height", c["height"] - 1)): pass
     for t in (1, 2):
         if sc["threads_exec"] > t and attempt(lambda c, t=t: (c.__setitem__("threads_exec", t), c.__setitem__("threads_ctor", t))): break
     attempt(lambda c: c["policy"].__setitem__("scribble", False))
@@ -317,6 +323,96 @@ def minimise(prop, flavour, scenario, want, max_runs=300):
                "from_decisions": start_sizes[2], "to_decisions": len(sc.get("decisions", []) or []), "from_history": start_sizes[3], "to_history": len(sc.get("history", [])),
                "reruns": max_runs - budget[0]}
     return sc, sc_info
+
+
+# ------------------------------------------------------------------------------------------------------------
+# valgrind pass (C15): uninitialised values and invalid accesses that ASan cannot see, on the plain binary
+VG_CMD = ["valgrind", "-q", "--error-exitcode=0", "--show-mismatched-frees=no", "--track-origins=yes", "--num-callers=30"]
+VG_KINDS = [("Conditional jump or move depends on uninitialised", "valgrind:uninitialised"), ("Use of uninitialised value", "valgrind:uninitialised"),
+            ("Syscall param", "valgrind:uninitialised"), ("Invalid read", "valgrind:invalid-read"), ("Invalid write", "valgrind:invalid-write"),
+            ("Invalid free", "valgrind:invalid-free"), ("Source and destination overlap", "valgrind:overlap")]
+
+def parse_valgrind(text):
+    """-> list of (seed, sub, cls, site, detail); site = first library location of the origin (uninitialised) or of the access"""
+    out, seed, sub = [], None, None
+    lines = text.splitlines()
+    i = 0
+    while i < len(lines):
+        l = lines[i]
+        if l.startswith("STAGE "):
+            p = l.split(); seed, sub = int(p[1]), int(p[2])
+        m = re.match(r"==\d+== (.*)", l)
+        if m:
+            cls = None
+            for pat, c in VG_KINDS:
+                if m.group(1).startswith(pat): cls = c
+            if cls:
+                block = []
+                j = i + 1
+                while j < len(lines) and re.match(r"==\d+== \S", lines[j]) or (j < len(lines) and re.match(r"==\d+==\s+(at|by) ", lines[j])):
+                    block.append(lines[j]); j += 1
+                locs = re.findall(r"\((tbf[\w]+\.hpp|F[\w]+\.hpp):(\d+)\)", "\n".join(block))
+                # prefer the origin ("was created by ...") if present
+                origin = None
+                for k, b in enumerate(block):
+                    if "was created by" in b:
+                        o = re.findall(r"\((tbf[\w]+\.hpp|F[\w]+\.hpp):(\d+)\)", "\n".join(block[k:]))
+                        if o: origin = o[0]
+                loc = origin or (locs[0] if locs else None)
+                if loc and seed is not None:
+                    out.append((seed, sub, cls, "%s:%s" % loc, m.group(1)[:120]))
+                i = j
+                continue
+        i += 1
+    return out
+
+def valgrind_one(prop, tier, base, index, force=None):
+    cmd = VG_CMD + [binary("plain"), "--prop", prop, "--tier", tier, "--base", str(base), "--from", str(index), "--count", str(index + 1)]
+    env = dict(os.environ)
+    if force: env.update(force)
+    try:
+        p = subprocess.run(cmd, stdout=subprocess.PIPE, stderr=subprocess.STDOUT, text=True, timeout=1800, env=env)
+    except subprocess.TimeoutExpired:
+        return [], 0
+    runs = sum(1 for l in p.stdout.splitlines() if l.startswith("RESULT "))
+    return parse_valgrind(p.stdout), runs
+
+def valgrind_replay(scenario):
+    os.makedirs(REPLAYS, exist_ok=True)
+    tmp = os.path.join(REPLAYS, ".tmp-vg-%d.json" % os.getpid())
+    with open(tmp, "w") as f: json.dump({"scenario": scenario}, f)
+    try:
+        p = subprocess.run(VG_CMD + [binary("plain"), "--replay", tmp], stdout=subprocess.PIPE, stderr=subprocess.STDOUT, text=True, timeout=1800)
+    except subprocess.TimeoutExpired:
+        return []
+    finally:
+        try: os.unlink(tmp)
+        except OSError: pass
+    return parse_valgrind(p.stdout)
+
+def valgrind_batch(prop, tier, base, count, results_out):
+    """runs `count` scenarios (all their sub-runs) under valgrind, 16 at a time; returns pseudo-results with violations"""
+    import concurrent.futures
+    total_runs = 0
+    with concurrent.futures.ThreadPoolExecutor(max_workers=16) as ex:
+        # structural part: every periodic top-tree depth with the sequential single and target/source executors (code that
+        # only runs sequentially and that ASan cannot fault: reads of never-written stack slots), then the ordinary swarm
+        forced = [{"TBFSIM_FORCE_ORDERING": "periodic", "TBFSIM_FORCE_EXECUTOR": ex_, "TBFSIM_FORCE_TOP": str(k)} for ex_ in ("seq", "seqtsm") for k in (-1, 0, 1, 2, 3)]
+        futs = [ex.submit(valgrind_one, prop, tier, base, 1000 + i, f) for i, f in enumerate(forced)]
+        futs += [ex.submit(valgrind_one, prop, tier, base, i) for i in range(count)]
+        for fi, f in enumerate(futs):
+            errs, runs = f.result()
+            force = forced[fi] if fi < len(forced) else None
+            total_runs += runs
+            seen = set()
+            for seed, sub, cls, site, detail in errs:
+                if (seed, sub, cls, site) in seen: continue
+                seen.add((seed, sub, cls, site))
+                sc = emit_scenario("plain", prop, tier, seed, sub, force)
+                results_out.append({"seed": seed, "sub": sub, "flavour": "valgrind", "executor": sc["executor"] if sc else "?", "ordering": sc["ordering"] if sc else "?",
+                                    "kernel": sc["kernel"] if sc else "?", "hash": None, "scenario": sc, "stats": {}, "policy": {}, "fw_errors": [],
+                                    "viol": [{"cls": cls, "site": site, "detail": "valgrind memcheck: " + detail + " (origin/location " + site + ")", "where": "run", "task": ""}], "valgrind_only": True})
+    return total_runs
 
 # ------------------------------------------------------------------------------------------------------------
 def main():
@@ -348,7 +444,8 @@ def main():
         with open(args.replay) as f:
             rep = json.load(f)
         flavour = rep.get("flavour", flavours[0])
-        if flavour not in flavours: build([flavour])
+        if flavour == "valgrind": build(["plain"])
+        elif flavour not in flavours: build([flavour])
         want = rep.get("violation", {})
         good, res, crash = shows(prop, flavour, rep["scenario"], want)
         if good:
@@ -369,14 +466,24 @@ def main():
         nworkers = args.workers or (16 if fl == "plain" else 12)
         n = nseeds if fl == flavours[0] else max(50, nseeds // 4)
         run_batch(fl, prop, tier, base, n, nworkers, results, crashes, fw_errors, deadline)
+    vg_runs = 0
+    if prop == "C15" and shutil.which("valgrind"):
+        if "plain" not in flavours: build(["plain"])
+        vg_results = []
+        vg_runs = valgrind_batch(prop, tier, base + 7919, 24 if tier == "quick" else 1500, vg_results)
+        results_vg = vg_results
+    else:
+        results_vg = []
     run_s = time.time() - t_start - build_s
+    global VG_RUNS
+    VG_RUNS = vg_runs
 
     # ---- classify ----
     for r in results:
         for e in r.get("fw_errors", []):
             fw_errors.append("seed %s sub %s: %s" % (r["seed"], r["sub"], e))
     found = collections.OrderedDict()     # key -> (run, violation)
-    for r in results:
+    for r in results + results_vg:
         for v in r.get("viol", []):
             if belongs(prop, v, r):
                 k = vkey(r, v)
@@ -409,7 +516,7 @@ def main():
         good, res, crash = shows(prop, r["flavour"], sc, v)
         if not good:
             gate_failures.append("violation %s (seed %s sub %s) did not reproduce in a fresh process" % (k, r["seed"], r["sub"])); continue
-        if res is not None and r.get("hash") and res.get("hash") != r.get("hash"):
+        if r["flavour"] != "valgrind" and res is not None and r.get("hash") and res.get("hash") != r.get("hash"):
             gate_failures.append("violation %s (seed %s sub %s): event hash differs on replay (%s vs %s)" % (k, r["seed"], r["sub"], res.get("hash"), r.get("hash"))); continue
         info = {}
         if not args.no_minimise:
@@ -512,6 +619,7 @@ def write_evidence(prop, tier, base, flavours, results, crashes, found, new, see
             "executors": dict(executors),
             "tree_heights": dict(heights),
             "flavours": flavours,
+            "valgrind_memcheck_runs": globals().get("VG_RUNS", 0),
             "crashes": len(crashes),
             "components_real": ["every header under /repo/src reached by the runs: sequential and OpenMP executors (plain and target/source), group/kernel interface, trees, containers, space index, counter kernel, and the compiler's outlined task bodies and capture blocks"],
             "components_stub": ["libgomp (replaced at link time by sim/gompsim.cpp)", "Specx runtime (sim/stubs/specx/Legacy/SpRuntime.hpp; the real runtime is an empty submodule here): results for specx/specxtsm executors are conditional on the stub's reading of Specx's dependency semantics", "StarPU runtime (sim/stubs/starpu/starpu.h, CPU codelets only; StarPU is not installed): results for starpu/starputsm executors are conditional on the stub's reading of StarPU's sequential-consistency and access-mode semantics"],
